@@ -471,6 +471,20 @@ func (g *Gen) between() {
 			break
 		}
 	}
+	if b.Pin > 0 && roll(b.LVFO) && len(g.pins) == 0 && g.latest > g.first && g.cur == g.latest {
+		// a rollback refused because an erased version is being exported, then
+		// repeated after the export was closed
+		v := g.first + int64(r.Intn(int(g.latest-g.first)))
+		g.emit(Step{Op: OpPin, N: g.latest})
+		g.emit(Step{Op: OpLVFO, N: v})
+		g.emit(Step{Op: OpUnpin, N: g.latest})
+		if r.Chance(1, 2) && v > g.first {
+			v-- // ... or to an older version
+		}
+		g.emit(Step{Op: OpLVFO, N: v})
+		g.latest, g.cur = v, v
+		g.curOps, g.dirty = nil, false
+	}
 	if roll(b.LVFO) && len(g.pins) == 0 {
 		v := g.retainedPick()
 		if !b.SortedWrites && g.cur == g.latest && r.Chance(1, 3) {
@@ -519,7 +533,11 @@ func (g *Gen) between() {
 		g.curOps, g.dirty = nil, false
 		if v < g.latest {
 			// what follows: identical re-commit, different re-commit, or go back to latest
-			switch r.Intn(3) {
+			switch r.Intn(4) {
+			case 3:
+				// commit without any write on top of the older version: identical
+				// only if the next version was a commit without writes too
+				g.emit(Step{Op: OpSave})
 			case 0:
 				if roll(50 + b.Recommit) {
 					for _, o := range g.opsOf[v+1] {
